@@ -56,9 +56,9 @@ class Prop:
               "The model describes the code as repaired by fixes/D01..D70 (ordered series in fixes/SERIES.txt); each repaired defect has a witness in "
               "mut.CORPUS that fails on the unchanged code.  Pinned behaviour kept and modelled: the top node of a typed copy gets kind 'child' (D47). "
               "Proved for all inputs (Properties/C04.v): placement for every form of `before`; effect + row-level frame of add, the four shortcuts, "
-              "remove (branch / keep_children), remove_children, clear, del, move_to, sort (flat and deep: permutation, sorted by key, stable, reverse), "
+              "remove (branch / keep_children / with_clones = prune of the clone group), remove_children, clear, del, move_to, sort (flat and deep: permutation, sorted by key, stable, reverse), "
               "set_data/rename incl. clone groups, metadata edits; and for EVERY op and outcome that only the tree it works on can change. "
-              "Not restated in Coq (decided by correspondence + mut_spec only): remove(with_clones) as a fold over the clone group, the copy family "
+              "Not restated in Coq (decided by correspondence + mut_spec only): remove(with_clones, keep_children) together, the copy family "
               "(property C07), in-place filter (C08), from_dict."),
         technique="Coq proof about an executable Gallina model + differential correspondence check (vm_compute) + Python oracle",
         design_ref="DESIGN.md section 6 (C04), 3.2, 3.4",
